@@ -182,6 +182,13 @@ def gen_noop(rng, n, tier):
     for _ in range(n):
         roots = ["in"] if rng.random() < 0.7 else ["in", "in2"]
         spec = gen.gen_tree(rng, roots=roots, hostile_names=True, max_entries=6)
+        if rng.random() < 0.06:
+            # a deep tree: every name is short enough, the relative path as a whole is longer than 255 bytes
+            p = roots[0]
+            for level in range(7):
+                p += "/" + ("d%d_" % level) + "x" * 45
+                spec[p] = None
+            spec[p + "/leaf.txt"] = "deep"
         mode = rng.choice(["name", "directory", "path"])
         yield {"spec": {k: v for k, v in spec.items()}, "roots": roots, "mode": mode,
                "template": rng.choice(TEMPLATES[mode]), "recursive": rng.random() < 0.6,
